@@ -394,6 +394,10 @@ func (fx *FX) closeLoop(fr *frame, li *loopInfo, from *ssa.BasicBlock, st *State
 			}
 		}
 		env.preState = lc.st
+		// names of body variables are resolved at the end of the body (the back edge), not at the header
+		savedAt := env.at
+		env.at = from
+		defer func() { env.at = savedAt }()
 		for j, cl := range steps {
 			g := fx.evalBool(env, cl.Expr)
 			fx.oblige(st, "inv-keep", fmt.Sprintf("%s.step#%d%s", label, j+1, lbl(cl)), cl.Text, g, from.Instrs[len(from.Instrs)-1].Pos(), cl.Props)
